@@ -445,7 +445,12 @@ func (v *View) List(dir string) ([]string, error) {
 	if err, _ := v.pre(OpList, dir, 0); err != nil {
 		return nil, err
 	}
-	return v.d.mem.List(dir)
+	// MemFS keeps directory entries in a Go map: sort, so that the order in
+	// which a directory is listed is a function of its content (as readdir on
+	// an unchanged directory is) and not of the process
+	names, err := v.d.mem.List(dir)
+	sort.Strings(names)
+	return names, err
 }
 
 // Stat implements FS.
